@@ -24,6 +24,7 @@ type PropEntry struct {
 	Lemmas    []string   `json:"lemmas,omitempty"` // SMT-LIB files (relative to /verif) whose expected answer is unsat
 	Effects   *effectCfg `json:"effects,omitempty"`
 	EffectKind string    `json:"effect_kind,omitempty"`
+	IOFrame   *ioFrameCfg `json:"io_frame,omitempty"` // additional frame obligations of an SMT-checked property (C01)
 }
 
 type KnownFinding struct {
